@@ -150,6 +150,245 @@ pub mod aarch64 {
     pub unsafe fn vgetq_lane_u64(a: uint64x2_t, lane: i32) -> u64 {
         a.0[lane as usize]
     }
+
+    // ---- further intrinsics a refactoring of the NEON code might plausibly use ----
+    #[derive(Clone, Copy, Debug)]
+    pub struct uint32x4_t(pub [u32; 4]);
+    #[derive(Clone, Copy, Debug)]
+    pub struct uint32x2_t(pub [u32; 2]);
+    #[derive(Clone, Copy, Debug)]
+    pub struct uint16x4_t(pub [u16; 4]);
+
+    #[inline(always)]
+    fn map2(a: uint8x16_t, b: uint8x16_t, f: impl Fn(u8, u8) -> u8) -> uint8x16_t {
+        let mut r = [0u8; 16];
+        let mut i = 0;
+        while i < 16 {
+            r[i] = f(a.0[i], b.0[i]);
+            i += 1;
+        }
+        uint8x16_t(r)
+    }
+
+    #[inline(always)]
+    pub unsafe fn vmaxq_u8(a: uint8x16_t, b: uint8x16_t) -> uint8x16_t {
+        map2(a, b, |x, y| if x > y { x } else { y })
+    }
+    #[inline(always)]
+    pub unsafe fn vminq_u8(a: uint8x16_t, b: uint8x16_t) -> uint8x16_t {
+        map2(a, b, |x, y| if x < y { x } else { y })
+    }
+    #[inline(always)]
+    pub unsafe fn veorq_u8(a: uint8x16_t, b: uint8x16_t) -> uint8x16_t {
+        map2(a, b, |x, y| x ^ y)
+    }
+    #[inline(always)]
+    pub unsafe fn vbicq_u8(a: uint8x16_t, b: uint8x16_t) -> uint8x16_t {
+        map2(a, b, |x, y| x & !y)
+    }
+    #[inline(always)]
+    pub unsafe fn vmvnq_u8(a: uint8x16_t) -> uint8x16_t {
+        map2(a, a, |x, _| !x)
+    }
+    #[inline(always)]
+    pub unsafe fn vtstq_u8(a: uint8x16_t, b: uint8x16_t) -> uint8x16_t {
+        map2(a, b, |x, y| if x & y != 0 { 0xFF } else { 0 })
+    }
+    #[inline(always)]
+    pub unsafe fn vceqzq_u8(a: uint8x16_t) -> uint8x16_t {
+        map2(a, a, |x, _| if x == 0 { 0xFF } else { 0 })
+    }
+    #[inline(always)]
+    pub unsafe fn vcgtq_u8(a: uint8x16_t, b: uint8x16_t) -> uint8x16_t {
+        map2(a, b, |x, y| if x > y { 0xFF } else { 0 })
+    }
+    #[inline(always)]
+    pub unsafe fn vcntq_u8(a: uint8x16_t) -> uint8x16_t {
+        map2(a, a, |x, _| x.count_ones() as u8)
+    }
+    #[inline(always)]
+    pub unsafe fn vshrq_n_u8(a: uint8x16_t, n: i32) -> uint8x16_t {
+        map2(a, a, |x, _| if n >= 8 { 0 } else { x >> (n as u32) })
+    }
+    #[inline(always)]
+    pub unsafe fn vaddq_u8(a: uint8x16_t, b: uint8x16_t) -> uint8x16_t {
+        map2(a, b, |x, y| x.wrapping_add(y))
+    }
+    #[inline(always)]
+    pub unsafe fn vsubq_u8(a: uint8x16_t, b: uint8x16_t) -> uint8x16_t {
+        map2(a, b, |x, y| x.wrapping_sub(y))
+    }
+    /// Pairwise add: low half folds `a`, high half folds `b`.
+    #[inline(always)]
+    pub unsafe fn vpaddq_u8(a: uint8x16_t, b: uint8x16_t) -> uint8x16_t {
+        let mut r = [0u8; 16];
+        let mut i = 0;
+        while i < 8 {
+            r[i] = a.0[2 * i].wrapping_add(a.0[2 * i + 1]);
+            r[8 + i] = b.0[2 * i].wrapping_add(b.0[2 * i + 1]);
+            i += 1;
+        }
+        uint8x16_t(r)
+    }
+    #[inline(always)]
+    pub unsafe fn vpminq_u8(a: uint8x16_t, b: uint8x16_t) -> uint8x16_t {
+        let mut r = [0u8; 16];
+        let mut i = 0;
+        while i < 8 {
+            r[i] = core::cmp::min(a.0[2 * i], a.0[2 * i + 1]);
+            r[8 + i] = core::cmp::min(b.0[2 * i], b.0[2 * i + 1]);
+            i += 1;
+        }
+        uint8x16_t(r)
+    }
+    #[inline(always)]
+    pub unsafe fn vminvq_u8(a: uint8x16_t) -> u8 {
+        let mut m = 255;
+        let mut i = 0;
+        while i < 16 {
+            m = core::cmp::min(m, a.0[i]);
+            i += 1;
+        }
+        m
+    }
+    #[inline(always)]
+    pub unsafe fn vaddvq_u8(a: uint8x16_t) -> u8 {
+        let mut m = 0u8;
+        let mut i = 0;
+        while i < 16 {
+            m = m.wrapping_add(a.0[i]);
+            i += 1;
+        }
+        m
+    }
+    #[inline(always)]
+    pub unsafe fn vaddlvq_u8(a: uint8x16_t) -> u16 {
+        let mut m = 0u16;
+        let mut i = 0;
+        while i < 16 {
+            m += a.0[i] as u16;
+            i += 1;
+        }
+        m
+    }
+    #[inline(always)]
+    pub unsafe fn vgetq_lane_u8(a: uint8x16_t, lane: i32) -> u8 {
+        a.0[lane as usize]
+    }
+    #[inline(always)]
+    pub unsafe fn vget_low_u8(a: uint8x16_t) -> uint8x8_t {
+        let mut r = [0u8; 8];
+        r.copy_from_slice(&a.0[..8]);
+        uint8x8_t(r)
+    }
+    #[inline(always)]
+    pub unsafe fn vget_high_u8(a: uint8x16_t) -> uint8x8_t {
+        let mut r = [0u8; 8];
+        r.copy_from_slice(&a.0[8..]);
+        uint8x8_t(r)
+    }
+    #[inline(always)]
+    pub unsafe fn vorr_u8(a: uint8x8_t, b: uint8x8_t) -> uint8x8_t {
+        let mut r = [0u8; 8];
+        let mut i = 0;
+        while i < 8 {
+            r[i] = a.0[i] | b.0[i];
+            i += 1;
+        }
+        uint8x8_t(r)
+    }
+    #[inline(always)]
+    pub unsafe fn vreinterpretq_u32_u8(a: uint8x16_t) -> uint32x4_t {
+        let mut r = [0u32; 4];
+        let mut i = 0;
+        while i < 4 {
+            r[i] = u32::from_le_bytes([a.0[4 * i], a.0[4 * i + 1], a.0[4 * i + 2], a.0[4 * i + 3]]);
+            i += 1;
+        }
+        uint32x4_t(r)
+    }
+    #[inline(always)]
+    pub unsafe fn vgetq_lane_u32(a: uint32x4_t, lane: i32) -> u32 {
+        a.0[lane as usize]
+    }
+    #[inline(always)]
+    pub unsafe fn vmaxvq_u32(a: uint32x4_t) -> u32 {
+        let mut m = 0;
+        let mut i = 0;
+        while i < 4 {
+            m = core::cmp::max(m, a.0[i]);
+            i += 1;
+        }
+        m
+    }
+    #[inline(always)]
+    pub unsafe fn vgetq_lane_u16(a: uint16x8_t, lane: i32) -> u16 {
+        a.0[lane as usize]
+    }
+    #[inline(always)]
+    pub unsafe fn vreinterpretq_u8_u16(a: uint16x8_t) -> uint8x16_t {
+        let mut r = [0u8; 16];
+        let mut i = 0;
+        while i < 8 {
+            let b = a.0[i].to_le_bytes();
+            r[2 * i] = b[0];
+            r[2 * i + 1] = b[1];
+            i += 1;
+        }
+        uint8x16_t(r)
+    }
+    #[inline(always)]
+    pub unsafe fn vreinterpretq_u8_u64(a: uint64x2_t) -> uint8x16_t {
+        let mut r = [0u8; 16];
+        r[..8].copy_from_slice(&a.0[0].to_le_bytes());
+        r[8..].copy_from_slice(&a.0[1].to_le_bytes());
+        uint8x16_t(r)
+    }
+    #[inline(always)]
+    pub unsafe fn vreinterpret_u32_u8(a: uint8x8_t) -> uint32x2_t {
+        uint32x2_t([u32::from_le_bytes([a.0[0], a.0[1], a.0[2], a.0[3]]), u32::from_le_bytes([a.0[4], a.0[5], a.0[6], a.0[7]])])
+    }
+    #[inline(always)]
+    pub unsafe fn vget_lane_u32(a: uint32x2_t, lane: i32) -> u32 {
+        a.0[lane as usize]
+    }
+    #[inline(always)]
+    pub unsafe fn vget_lane_u8(a: uint8x8_t, lane: i32) -> u8 {
+        a.0[lane as usize]
+    }
+    #[inline(always)]
+    pub unsafe fn vshrn_n_u32(a: uint32x4_t, n: i32) -> uint16x4_t {
+        let mut r = [0u16; 4];
+        let mut i = 0;
+        while i < 4 {
+            r[i] = (a.0[i] >> (n as u32)) as u16;
+            i += 1;
+        }
+        uint16x4_t(r)
+    }
+    #[inline(always)]
+    pub unsafe fn vmovn_u16(a: uint16x8_t) -> uint8x8_t {
+        let mut r = [0u8; 8];
+        let mut i = 0;
+        while i < 8 {
+            r[i] = a.0[i] as u8;
+            i += 1;
+        }
+        uint8x8_t(r)
+    }
+    /// Unaligned-tolerant 16-byte load through a typed pointer (plain deref in the crate would be `vld1q_u8`).
+    #[inline(always)]
+    pub unsafe fn vld1q_dup_u8(ptr: *const u8) -> uint8x16_t {
+        let mut v = [0u8; 1];
+        #[cfg(memchr_verif)]
+        let ok = crate::verif::region_check(ptr, 1, 1);
+        #[cfg(not(memchr_verif))]
+        let ok = true;
+        if ok {
+            v[0] = *ptr;
+        }
+        uint8x16_t([v[0]; 16])
+    }
 }
 
 pub mod wasm32 {
@@ -224,5 +463,100 @@ pub mod wasm32 {
             i += 1;
         }
         false
+    }
+
+    // ---- further intrinsics ----
+    #[inline(always)]
+    pub fn v128_xor(a: v128, b: v128) -> v128 {
+        let mut r = [0u8; 16];
+        let mut i = 0;
+        while i < 16 {
+            r[i] = a.0[i] ^ b.0[i];
+            i += 1;
+        }
+        v128(r)
+    }
+    #[inline(always)]
+    pub fn v128_not(a: v128) -> v128 {
+        let mut r = [0u8; 16];
+        let mut i = 0;
+        while i < 16 {
+            r[i] = !a.0[i];
+            i += 1;
+        }
+        v128(r)
+    }
+    #[inline(always)]
+    pub fn v128_andnot(a: v128, b: v128) -> v128 {
+        let mut r = [0u8; 16];
+        let mut i = 0;
+        while i < 16 {
+            r[i] = a.0[i] & !b.0[i];
+            i += 1;
+        }
+        v128(r)
+    }
+    #[inline(always)]
+    pub fn u8x16_ne(a: v128, b: v128) -> v128 {
+        let mut r = [0u8; 16];
+        let mut i = 0;
+        while i < 16 {
+            r[i] = if a.0[i] != b.0[i] { 0xFF } else { 0 };
+            i += 1;
+        }
+        v128(r)
+    }
+    #[inline(always)]
+    pub fn i8x16_eq(a: v128, b: v128) -> v128 {
+        u8x16_eq(a, b)
+    }
+    #[inline(always)]
+    pub fn i8x16_splat(b: i8) -> v128 {
+        v128([b as u8; 16])
+    }
+    #[inline(always)]
+    pub fn i8x16_bitmask(a: v128) -> u16 {
+        u8x16_bitmask(a)
+    }
+    #[inline(always)]
+    pub fn u8x16_all_true(a: v128) -> bool {
+        let mut i = 0;
+        while i < 16 {
+            if a.0[i] == 0 {
+                return false;
+            }
+            i += 1;
+        }
+        true
+    }
+    #[inline(always)]
+    pub fn i8x16_all_true(a: v128) -> bool {
+        u8x16_all_true(a)
+    }
+    #[inline(always)]
+    pub fn u8x16_max(a: v128, b: v128) -> v128 {
+        let mut r = [0u8; 16];
+        let mut i = 0;
+        while i < 16 {
+            r[i] = core::cmp::max(a.0[i], b.0[i]);
+            i += 1;
+        }
+        v128(r)
+    }
+    #[inline(always)]
+    pub fn u16x8_bitmask(a: v128) -> u8 {
+        let mut m = 0u8;
+        let mut i = 0;
+        while i < 8 {
+            m |= (a.0[2 * i + 1] >> 7) << i;
+            i += 1;
+        }
+        m
+    }
+    #[inline(always)]
+    pub fn u64x2_extract_lane<const L: usize>(a: v128) -> u64 {
+        let mut b = [0u8; 8];
+        b.copy_from_slice(&a.0[8 * L..8 * L + 8]);
+        u64::from_le_bytes(b)
     }
 }
